@@ -202,10 +202,44 @@ func (b *Builder) key(t reflect.Type, i, depth int) reflect.Value {
 	case reflect.Struct:
 		save := b.Task
 		b.Task = 0
-		k.Set(b.build(t, depth+1, ""))
+		k.Set(b.keyStruct(t, i, depth))
 		b.Task = save
+	case reflect.Pointer:
+		// pointer keys: always a fresh, non-nil pointee (distinct keys by identity)
+		p := reflect.New(t.Elem())
+		if t.Elem().Kind() == reflect.Struct {
+			p.Elem().Set(b.keyStruct(t.Elem(), i, depth))
+		} else {
+			p.Elem().Set(b.build(t.Elem(), depth+1, ""))
+		}
+		k.Set(p)
 	}
 	return k
+}
+
+// keyStruct builds a struct key whose first int field identifies the key (so that keys stay
+// distinct and comparable by content) and whose pointer fields are non-nil.
+func (b *Builder) keyStruct(t reflect.Type, i, depth int) reflect.Value {
+	v := reflect.New(t).Elem()
+	first := true
+	for f := 0; f < t.NumField(); f++ {
+		ft := t.Field(f)
+		if !ft.IsExported() {
+			continue
+		}
+		switch {
+		case first && (ft.Type.Kind() == reflect.Int || ft.Type.Kind() == reflect.Int64) && ft.Name != "ID":
+			v.Field(f).SetInt(int64(100 + i))
+			first = false
+		case ft.Type.Kind() == reflect.Pointer:
+			p := reflect.New(ft.Type.Elem())
+			p.Elem().Set(b.build(ft.Type.Elem(), depth+1, ft.Name))
+			v.Field(f).Set(p)
+		default:
+			v.Field(f).Set(b.build(ft.Type, depth+1, ft.Name))
+		}
+	}
+	return v
 }
 
 func (b *Builder) reuse(t reflect.Type) (reflect.Value, bool) {
@@ -331,9 +365,18 @@ func equal(a, b reflect.Value, path string) (bool, string) {
 		for _, k := range SortedKeys(a) {
 			bv := b.MapIndex(k)
 			if !bv.IsValid() {
-				return false, fmt.Sprintf("%s: key %v missing", path, k)
+				// keys holding pointers are equal by content, not by identity
+				for _, kb := range b.MapKeys() {
+					if ok, _ := equal(k, kb, ""); ok {
+						bv = b.MapIndex(kb)
+						break
+					}
+				}
 			}
-			if ok, p := equal(a.MapIndex(k), bv, fmt.Sprintf("%s[%v]", path, k)); !ok {
+			if !bv.IsValid() {
+				return false, fmt.Sprintf("%s: key %s missing", path, keyText(k))
+			}
+			if ok, p := equal(a.MapIndex(k), bv, fmt.Sprintf("%s[%s]", path, keyText(k))); !ok {
 				return false, p
 			}
 		}
@@ -371,10 +414,32 @@ func equal(a, b reflect.Value, path string) (bool, string) {
 	}
 }
 
-// SortedKeys returns the keys of a map in a canonical order.
+// keyText renders a map key by content (pointers are followed), so that the text does not
+// depend on addresses.
+func keyText(k reflect.Value) string {
+	switch k.Kind() {
+	case reflect.Pointer:
+		if k.IsNil() {
+			return "nil"
+		}
+		return "&" + keyText(k.Elem())
+	case reflect.Struct:
+		s := "{"
+		for i := 0; i < k.NumField(); i++ {
+			if k.Type().Field(i).IsExported() {
+				s += keyText(k.Field(i)) + " "
+			}
+		}
+		return s + "}"
+	default:
+		return fmt.Sprintf("%#v", k.Interface())
+	}
+}
+
+// SortedKeys returns the keys of a map in a canonical order (by content).
 func SortedKeys(m reflect.Value) []reflect.Value {
 	ks := m.MapKeys()
-	sort.Slice(ks, func(i, j int) bool { return fmt.Sprintf("%#v", ks[i].Interface()) < fmt.Sprintf("%#v", ks[j].Interface()) })
+	sort.SliceStable(ks, func(i, j int) bool { return keyText(ks[i]) < keyText(ks[j]) })
 	return ks
 }
 
@@ -438,8 +503,8 @@ func Regions(v reflect.Value) []Region {
 			}
 			seen[key] = true
 			for _, k := range SortedKeys(v) {
-				walk(k, fmt.Sprintf("%s<key %v>", path, k))
-				walk(v.MapIndex(k), fmt.Sprintf("%s[%v]", path, k))
+				walk(k, fmt.Sprintf("%s<key %s>", path, keyText(k)))
+				walk(v.MapIndex(k), fmt.Sprintf("%s[%s]", path, keyText(k)))
 			}
 		case reflect.Struct:
 			for i := 0; i < v.NumField(); i++ {
@@ -549,6 +614,7 @@ func Scribble(v reflect.Value) {
 			}
 			seen[uintptr(v.UnsafePointer())] = true
 			for _, k := range v.MapKeys() {
+				reach(k) // memory behind pointer-holding keys
 				e := reflect.New(v.Type().Elem()).Elem()
 				e.Set(v.MapIndex(k))
 				all(e)
